@@ -471,6 +471,13 @@ Section World.
         else if amem (u "spec_version") d && match vv with V20 => true | V21 => false end then Err EValueError
         else
           do p <- rec_parse allow interop d;
+          if vr_bundle20_recheck vr && (match vv with V20 => true | V21 => false end) &&
+             (match p with
+              | PObject _ inner _ _ => amem (u "spec_version") inner
+              | PJ (JObj m) => amem (u "spec_version") m
+              | _ => false
+              end)
+          then Err EValueError else
           let hc := match p with PObject _ _ _ h => h | _ => true end in
           if negb allow && hc then Err ECustomContent else Ok (p, hc)
       end
